@@ -166,7 +166,7 @@ func checkC03(c *Ctx) error {
 		}
 		t := Tree{}
 		for p, ls := range files {
-			t["regex-assembly/"+p] = strings.Join(ls, "\n") + "\n"
+			t["regex-assembly/"+p] = fileText(p, ls)
 		}
 		writeTree(famRoot, t)
 	}
@@ -179,6 +179,14 @@ func checkC03(c *Ctx) error {
 		jobs = append(jobs, job{what: "cmdline block, configuration with and without alternations", root: mixedRoot,
 			text: "##!> cmdline " + sh + "\naa@\nab~\n##!<\n", same: "##!> cmdline " + sh + "\naa@\nab~\n##!<\n"})
 	}
+	// the same relative name in the include AND the exclude directory: the include directory wins, always
+	sameRoot, err := c.newSandbox("c03same")
+	if err != nil {
+		return err
+	}
+	writeTree(sameRoot, Tree{"regex-assembly/include/tools.ra": "curl\nperl\nwget\n", "regex-assembly/exclude/tools.ra": "perl\n", "regex-assembly/exclude/fps.ra": "wget\n"})
+	jobs = append(jobs, job{what: "file name present in include/ and exclude/", root: sameRoot, text: "##!> include tools\n", same: "curl\nperl\nwget\n"},
+		job{what: "file name present in include/ and exclude/ (include-except)", root: sameRoot, text: "##!> include-except tools fps\n", same: "curl\nperl\n"})
 	jobs = append(jobs, job{what: "flag set", text: "##!+ s\n##!+ i\na.\nb\n", same: "##!+ is\na.\nb\n", root: root})
 	var unstable int64
 	parallel(len(jobs), 16, func(i int) {
